@@ -74,4 +74,6 @@ def run(ctx):
     from props import colreuse
     res = colreuse.add(ctx, res, 'C07')
     from props import colmodel
-    return colmodel.add(ctx, res, 'C07', n_quick=80, n_thorough=800)
+    res = colmodel.add(ctx, res, 'C07', n_quick=80, n_thorough=800)
+    from props import crossproc
+    return crossproc.add(ctx, res, 'C07')
